@@ -577,7 +577,8 @@ fn sanitize_table_name(table_name: &str) -> String {
     if name.len() > 189 {
         name = name[..189].to_string();
     }
-    if name != table_name {
+    // (an empty name would put the partition files directly into the tables directory)
+    if name != table_name || name.is_empty() {
         use sha2::{Digest, Sha256};
         let mut hasher = Sha256::new();
         hasher.update(table_name.as_bytes());
